@@ -12,8 +12,8 @@ from mc.core import Acc, Hang, fp_hash, horizon, labella_globals, purge_labella
 
 ID = "C10"
 RULE = ("E-HIST: breadth-first search over every history of construct/export operations (new(X, svg|tex), export(latest X)) on "
-        "3 (thorough 4) timeline specs - two with the library's default time scale, one with a caller-supplied LinearScale, one "
-        "with an explicit domain - up to depth 6 (thorough 9, or until no new state appears). Every history is replayed from a purged, re-imported library; "
+        "5 (thorough 6) timeline specs - default time scale (two of them built from ONE caller options dict), caller-supplied "
+        "LinearScales with equal-span domains at different offsets, explicit domain; together using every option group - up to depth 8 with one back-end per spec (thorough: both back-ends, 6 specs, depth 7). Every history is replayed from a purged, re-imported library; "
         "states are deduplicated by a fingerprint of the instances AND all labella module/class globals (aliasing included). "
         "Oracle: every export is byte-identical to the export of the same spec alone in a fresh interpreter process. "
         "Non-trivial: an export made after a different spec was constructed or exported since this instance was built.")
@@ -22,35 +22,49 @@ ASSUMPTIONS = ["reference documents come from fresh subprocesses started by the 
 REQUIRED_COUNTERS = ("exports_checked", "exports_after_other_spec", "repeated_exports")
 
 dt = _dt.datetime
+# Together the specs use every option group (scale default/own, domain, labella, margin, labelPadding, latex, colour lists,
+# border, textFn) so that state leaking through any of them is observable.  A and F are built from ONE options dict object
+# (a caller re-using its dict; it passes no scale, so the two timelines must still not share one).
 SPECS = {
     "A": {"data": [{"time": dt(2020, 1, 3, 12), "width": 40}, {"time": dt(2020, 1, 9), "width": 40, "text": "b"},
-                   {"time": dt(2020, 1, 20, 18, 30), "width": 40}], "options": {"direction": "right"}},
+                   {"time": dt(2020, 1, 20, 18, 30), "width": 40}], "options": "SHARED"},
     "B": {"data": [{"time": dt(1991, 5, 5), "width": 40, "text": "x"}, {"time": dt(1993, 5, 5), "width": 40}, {"time": dt(1993, 6, 1), "width": 40},
-                   {"time": dt(1998, 5, 5), "width": 40}], "options": {"direction": "up", "labella": {"maxPos": 100}}},
+                   {"time": dt(1998, 5, 5), "width": 40}],
+          "options": {"direction": "up", "labella": {"maxPos": 100}, "labelPadding": {"left": 9, "right": 1, "top": 4, "bottom": 6}}},
     "C": {"data": [{"time": 1, "width": 30}, {"time": 1.5, "width": 30, "text": "c"}, {"time": 9, "width": 30}],
-          "options": {"direction": "left", "scale": "LinearScale"}},
+          "options": {"direction": "left", "scale": "LinearScale", "latex": {"tickCross": True, "fontsize": "10pt"}}},
     "D": {"data": [{"time": dt(2021, 3, 14, 2, 30), "width": 50}, {"time": dt(2021, 3, 20), "width": 50}],
-          "options": {"direction": "down", "domain": [dt(2021, 3, 1), dt(2021, 4, 1)], "showBorder": True}},
+          "options": {"direction": "down", "domain": [dt(2021, 3, 1), dt(2021, 4, 1)], "showBorder": True,
+                      "margin": {"left": 60, "right": 5, "top": 35, "bottom": 10}, "dotColor": ["#f00", "#00ff00"]}},
+    "E": {"data": [{"time": 11, "width": 30}, {"time": 12.5, "width": 30}, {"time": 19, "width": 30, "text": "e"}],
+          "options": {"direction": "up", "scale": "LinearScale", "labelTextColor": "#abc"}},
+    "F": {"data": [{"time": dt(2005, 7, 1), "width": 60}, {"time": dt(2005, 7, 2, 6), "width": 60}, {"time": dt(2005, 9, 30), "width": 60}],
+          "options": "SHARED"},
 }
+SHARED_OPTIONS = {"direction": "right", "initialWidth": 500}
 
 
 def bounds(tier, seed):
-    return {"specs": sorted(_specs(tier, seed)), "depth": 6 if tier == "quick" else 9,
-            "ops": "new(X,svg) new(X,tex) export(X) per spec"}
+    return {"specs": sorted(_specs(tier, seed)), "depth": 8 if tier == "quick" else 7,
+            "ops": "quick: new(X, fixed back-end) export(X) per spec; thorough: new(X,svg) new(X,tex) export(X) per spec"}
 
 
 def _specs(tier, seed):
     if tier == "thorough":
-        return ["A", "B", "C", "D"]
-    return [["A", "B", "C"], ["A", "B", "D"], ["A", "C", "D"], ["B", "A", "D"]][seed % 4]
+        return ["A", "B", "C", "D", "E", "F"]
+    return [["A", "F", "C", "E", "B"], ["A", "F", "C", "E", "D"]][seed % 2]
 
 
-def construct(spec, backend):
+def construct(spec, backend, shared=None):
+    """shared: the caller's one options dict for the specs that re-use it (None: a fresh one)."""
     from labella.scale import LinearScale
     from labella.timeline import TimelineSVG, TimelineTex
     s = SPECS[spec]
     data = copy.deepcopy(s["data"])
-    opts = copy.deepcopy(s["options"])
+    if s["options"] == "SHARED":
+        opts = shared if shared is not None else copy.deepcopy(SHARED_OPTIONS)
+    else:
+        opts = copy.deepcopy(s["options"])
     if opts.get("scale") == "LinearScale":
         opts["scale"] = LinearScale()
     return (TimelineSVG if backend == "svg" else TimelineTex)(data, opts)
@@ -89,9 +103,10 @@ def replay_history(hist):
     """Fresh library, replay all ops.  -> (live instances, list of (op index, spec, backend, document))"""
     purge_labella()
     live, outs = {}, []
+    shared = copy.deepcopy(SHARED_OPTIONS)
     for i, op in enumerate(hist):
         if op[0] == "new":
-            live[op[1]] = (construct(op[1], op[2]), op[2])
+            live[op[1]] = (construct(op[1], op[2], shared), op[2])
         else:
             if op[1] not in live:
                 continue
@@ -135,22 +150,29 @@ def state_fp(live):
     return fp_hash([{k: v[0] for k, v in sorted(live.items())}, {k: v[1] for k, v in live.items()}, labella_globals()])
 
 
-def ops_for(specs):
+def ops_for(specs, backends=None):
+    """backends: None = both back-ends for every spec; else a fixed back-end per spec (quick tier)."""
     out = []
-    for s in specs:
-        out += [("new", s, "svg"), ("new", s, "tex"), ("exp", s)]
+    for i, s in enumerate(specs):
+        if backends is None:
+            out += [("new", s, "svg"), ("new", s, "tex"), ("exp", s)]
+        else:
+            out += [("new", s, backends[i]), ("exp", s)]
     return out
 
 
 def hist_init(tier, seed):
     specs = _specs(tier, seed)
-    return {"ctx": {"specs": specs}, "roots": [[]], "depth": 6 if tier == "quick" else 9}
+    if tier == "quick":  # one back-end per spec, alternating, rotated by the seed; deeper histories
+        backends = [("svg", "tex")[(i + seed) % 2] for i in range(len(specs))]
+        return {"ctx": {"specs": specs, "backends": backends}, "roots": [[]], "depth": 8}
+    return {"ctx": {"specs": specs, "backends": None}, "roots": [[]], "depth": 7}
 
 
 def hist_expand(ctx, h, acc):
     """Try every enabled operation after history h; judge it; return new (fingerprint, history) pairs."""
     h = [tuple(o) for o in h]
-    ops = ops_for(ctx["specs"])
+    ops = ops_for(ctx["specs"], ctx.get("backends"))
     succ = []
     for op in ops:
         if op[0] == "exp" and not any(o[0] == "new" and o[1] == op[1] for o in h):
